@@ -37,6 +37,14 @@ LAYERS: Dict[str, Dict[str, Any]] = {
                          BinOps='NoStr', CmpOps='NoStr', Funcs1='NoStr', Funcs2='NoStr', UseNeg='FALSE', UseParen='FALSE', UseCond='FALSE'),
     'merge3': dict(MaxStmts=3, MaxLeaves=1, MaxNodes=1, MaxNames=2, Kinds='AllKinds', Idxs='ShapeIdxs', LhsIdxs='Lhs0', Nums='NoStr',
                    BinOps='NoStr', CmpOps='NoStr', Funcs1='NoStr', Funcs2='NoStr', UseNeg='FALSE', UseParen='FALSE', UseCond='FALSE'),
+    # long scripts (many statements / names / mentions), sampled
+    'sim_long': dict(NoReject='TRUE', MaxStmts=8, MaxLeaves=8, MaxNodes=16, MaxNames=14, Kinds='AllKinds', Idxs='SimIdxs', LhsIdxs='Lhs01', Nums='SimNums',
+                     BinOps='ArithOps', CmpOps='PairCmps', Funcs1='PairF1', Funcs2='PairF2', UseNeg='TRUE', UseParen='TRUE', UseCond='TRUE',
+                     BoolOps='AndOr', UseNot='TRUE'),
+    'sim_long_kinds': dict(NoReject='TRUE', MaxStmts=6, MaxLeaves=6, MaxNodes=12, MaxNames=14, Kinds='AllKinds', Idxs='SimIdxs', LhsIdxs='Lhs0', Nums='PairNums',
+                           BinOps='ArithOps', CmpOps='NoStr', Funcs1='NoStr', Funcs2='NoStr', UseNeg='TRUE', UseParen='FALSE', UseCond='FALSE'),
+    'fortran_sim_long': dict(NoReject='TRUE', MaxStmts=8, MaxLeaves=10, MaxNodes=20, MaxNames=14, Kinds='AllKinds', Idxs='FortIdxs', LhsIdxs='Lhs0', Nums='FortNums',
+                             BinOps='ArithOps', CmpOps='NoStr', Funcs1='FortF1', Funcs2='PairF2', UseNeg='TRUE', UseParen='TRUE', UseCond='FALSE'),
     # the expression subset common to the Python and Fortran back-ends
     'fortran': dict(MaxStmts=1, MaxLeaves=2, MaxNodes=4, MaxNames=3, Kinds='AllKinds', Idxs='FortIdxs', LhsIdxs='Lhs0', Nums='FortNums',
                     BinOps='ArithOps', CmpOps='NoStr', Funcs1='FortF1', Funcs2='PairF2', UseNeg='TRUE', UseParen='TRUE', UseCond='FALSE'),
@@ -60,6 +68,7 @@ def layer_cfg(layer: str, invariants: Sequence[str], emit: bool = True) -> str:
         lines.append(f'  {k} <- {c[k]}')
     lines.append(f"  BoolOps <- {c.get('BoolOps', 'NoStr')}")
     lines.append(f"  UseNot = {c.get('UseNot', 'FALSE')}")
+    lines.append(f"  NoReject = {c.get('NoReject', 'FALSE')}")
     for k in ('UseNeg', 'UseParen', 'UseCond'):
         lines.append(f'  {k} = {c[k]}')
     lines += ['  Shard = {shard}', '  NShards = {nshards}', 'CONSTRAINT ShardC']
@@ -97,9 +106,9 @@ def emit_layer(ctx: core.Ctx, layer: str, *, timeout: int = 3600) -> List[Dict[s
     return out
 
 
-def simulate_layer(ctx: core.Ctx, layer: str, num: int, depth: int = 80) -> List[Dict[str, Any]]:
+def simulate_layer(ctx: core.Ctx, layer: str, num: int, depth: int = 240, invariants: Sequence[str] = INV) -> List[Dict[str, Any]]:
     from concurrent.futures import ThreadPoolExecutor
-    tmpl = layer_cfg(layer, INV)
+    tmpl = layer_cfg(layer, invariants)
 
     def one(i: int):
         return core.run_tlc('ScriptMC', tmpl.format(shard=0, nshards=1), workers=1, tag=f'{ctx.prop}-{layer}-sim{i}',
@@ -120,6 +129,76 @@ def simulate_layer(ctx: core.Ctx, layer: str, num: int, depth: int = 80) -> List
             seen.add(sig)
             out.append(rec)
     return out
+
+
+def compose_long(pool: List[Dict[str, Any]], seed: int, count: int, max_names: int = 14) -> List[List[Dict[str, Any]]]:
+    """Long scripts composed of statements the stack machine generated: 4-10 statements, names drawn from a pool of
+    `max_names` ids so that variables are shared, repeated and defined after use.  Mostly acceptable programs (kinds are
+    kept consistent, left-hand sides mostly distinct), a few deliberately not."""
+    import random
+    rng = random.Random(seed * 7919 + 13)
+    stmts_pool = [st for r in pool for st in r['stmts']]
+    out = []
+    for _ in range(count):
+        m = rng.randint(4, 10)
+        kind_of: Dict[int, str] = {}
+        defined = set()
+        prog = []
+        sloppy = rng.random() < 0.1          # now and then allow clashes / second definitions
+        for _j in range(m):
+            st = rng.choice(stmts_pool)
+            local: Dict[int, int] = {}
+
+            def g(n, kind):
+                if n not in local:
+                    cands = [x for x in range(1, max_names + 1) if sloppy or kind_of.get(x, kind) == kind]
+                    local[n] = rng.choice(cands) if cands else rng.randint(1, max_names)
+                    kind_of.setdefault(local[n], kind)
+                return local[n]
+            lhs_free = [x for x in range(1, max_names + 1) if (sloppy or (x not in defined and kind_of.get(x, 'v') == 'v'))]
+            if not lhs_free:
+                break
+            lhs_id = rng.choice(lhs_free)
+            local[st['lhs']['n']] = lhs_id
+            kind_of.setdefault(lhs_id, 'v')
+            defined.add(lhs_id)
+            rhs = []
+            for tk in st['rhs']:
+                if tk['t'] == 'var':
+                    if tk['n'] == st['lhs']['n'] and tk['s'] != 'v' and not sloppy:
+                        tk = dict(tk, s='v')
+                    rhs.append(dict(tk, n=g(tk['n'], tk['s'])))
+                else:
+                    rhs.append(dict(tk))
+            prog.append({'lhs': dict(st['lhs'], n=lhs_id), 'rhs': rhs})
+        if len(prog) >= 3:
+            out.append(prog)
+    return out
+
+
+def judge_programs(ctx: core.Ctx, programs: List[List[Dict[str, Any]]], tag: str, invariants: Sequence[str] = INV) -> List[Dict[str, Any]]:
+    """Reference semantics for harness-composed programs, computed and checked by TLC (ScriptJudge.tla)."""
+    if not programs:
+        return []
+    path = core.subdir('judge') / f'{ctx.prop}-{tag}.json'
+    path.write_text(json.dumps(programs))
+    cfg = ['INIT JInit', 'NEXT JNext', 'CONSTANTS', '  MaxStmts = 40', '  MaxLeaves = 40', '  MaxNodes = 200', '  MaxNames = 40',
+           '  Kinds <- AllKinds', '  Idxs <- TermIdxs', '  LhsIdxs <- Lhs01', '  Nums <- NoStr', '  BinOps <- NoStr', '  CmpOps <- NoStr',
+           '  BoolOps <- NoStr', '  Funcs1 <- NoStr', '  Funcs2 <- NoStr', '  UseNeg = FALSE', '  UseParen = FALSE', '  UseCond = FALSE',
+           '  UseNot = FALSE', '  NoReject = FALSE', '  Shard = {shard}', '  NShards = {nshards}']
+    cfg += [f'INVARIANT {i}' for i in invariants if i != 'TypeOK'] + ['INVARIANT JTypeOK', 'INVARIANT EmitInv', 'CHECK_DEADLOCK FALSE']
+    results = core.run_sharded('ScriptJudge', '\n'.join(cfg) + '\n', core.NCPU, tag=f'{ctx.prop}-judge-{tag}', heap='2g',
+                               env={'PROGRAMS_FILE': str(path)})
+    recs = []
+    for i, r in enumerate(results):
+        core.require_ok(r, f'ScriptJudge {tag}')
+        recs += r.records
+    agg = core.TLCResult(rc=0, generated=sum(r.generated for r in results), distinct=sum(r.distinct for r in results), depth=1,
+                         wall=max(r.wall for r in results))
+    ctx.add_tlc(agg, f'ScriptJudge: {len(programs)} composed long programs judged ({tag})', constants='4-10 statements, <= 14 names')
+    if len(recs) != len({json.dumps(p, sort_keys=True) for p in programs}):
+        raise core.MachineryError(f'ScriptJudge returned {len(recs)} records for {len(programs)} programs')
+    return recs
 
 
 def replay(ctx: core.Ctx, recs: List[Dict[str, Any]], *, checks: Sequence[str], namemaps: Sequence[str], what: str,
